@@ -97,14 +97,15 @@ theorem decode_flag (cfg : Cfg) (st : PState) (line : Bytes) (f2 : Frag)
     | ok u =>
       rw [hc] at h
       simp only [] at h ⊢
+      unfold stepSentence at h ⊢
       by_cases hm : s.hasMore = true
       · simp only [hm, if_true] at h ⊢
         generalize verifyAndExtend cfg (if s.fragment_number = 1 then ⟨s.message_id, 0, []⟩ else st) s = ve at h ⊢
         obtain ⟨st2, r⟩ := ve
         cases r with
-        | ok u => simp only [] at h ⊢; cases h; exact ⟨by first | rfl | trivial, _, rfl, rfl, rfl⟩
-        | err e => simp only [] at h; cases h
-        | panic p => simp only [] at h; cases h
+        | ok u => simp only [afterVerify] at h ⊢; cases h; exact ⟨by first | rfl | trivial, _, rfl, rfl, rfl⟩
+        | err e => simp only [afterVerify] at h; cases h
+        | panic p => simp only [afterVerify] at h; cases h
       · simp only [hm, Bool.false_eq_true, if_false] at h ⊢
         by_cases hf : s.isFragment = true
         · simp only [hf, if_true] at h ⊢
@@ -112,7 +113,7 @@ theorem decode_flag (cfg : Cfg) (st : PState) (line : Bytes) (f2 : Frag)
           obtain ⟨st2, r⟩ := ve
           cases r with
           | ok u =>
-            simp only [] at h ⊢
+            simp only [afterVerify] at h ⊢
             cases hd : decodeInto cfg true { s with data := st2.data } with
             | ok s' =>
               rw [hd] at h; simp only [Res.map] at h; cases h
@@ -120,8 +121,8 @@ theorem decode_flag (cfg : Cfg) (st : PState) (line : Bytes) (f2 : Frag)
               exact decodeInto_true_fields cfg _ _ hd
             | err e => rw [hd] at h; simp only [Res.map] at h; cases h
             | panic p => rw [hd] at h; simp only [Res.map] at h; cases h
-          | err e => simp only [] at h; cases h
-          | panic p => simp only [] at h; cases h
+          | err e => simp only [afterVerify] at h; cases h
+          | panic p => simp only [afterVerify] at h; cases h
         · simp only [hf, Bool.false_eq_true, if_false] at h ⊢
           cases hd : decodeInto cfg true s with
           | ok s' =>
@@ -151,23 +152,24 @@ theorem decode_off_no_message (cfg : Cfg) (st : PState) (line : Bytes) (f : Frag
     | ok u =>
       rw [hc] at h
       simp only [] at h
+      unfold stepSentence at h
       by_cases hm : s.hasMore = true
       · simp only [hm, if_true] at h
         generalize verifyAndExtend cfg (if s.fragment_number = 1 then ⟨s.message_id, 0, []⟩ else st) s = ve at h
         obtain ⟨st2, r⟩ := ve
         cases r with
-        | ok u => simp only [] at h; cases h; exact hs
-        | err e => simp only [] at h; cases h
-        | panic p => simp only [] at h; cases h
+        | ok u => simp only [afterVerify] at h; cases h; exact hs
+        | err e => simp only [afterVerify] at h; cases h
+        | panic p => simp only [afterVerify] at h; cases h
       · simp only [hm, Bool.false_eq_true, if_false] at h
         by_cases hf : s.isFragment = true
         · simp only [hf, if_true] at h
           generalize verifyAndExtend cfg st s = ve at h
           obtain ⟨st2, r⟩ := ve
           cases r with
-          | ok u => simp only [decodeInto_false, Res.map] at h; cases h; exact hs
-          | err e => simp only [] at h; cases h
-          | panic p => simp only [] at h; cases h
+          | ok u => simp only [afterVerify, decodeInto_false, Res.map] at h; cases h; exact hs
+          | err e => simp only [afterVerify] at h; cases h
+          | panic p => simp only [afterVerify] at h; cases h
         · simp only [hf, Bool.false_eq_true, if_false, decodeInto_false, Res.map] at h
           cases h; exact hs
 
